@@ -295,8 +295,19 @@ def rule_r4(p, res):
         c = cs[0]
         kws = {k.arg: norm(k.value) for k in c.keywords}
         r.check(kws.get("mode") == "mode" and kws.get("error_on_divide_by_zero") == "error_on_divide_by_zero", h, c, "%s must forward mode and error_on_divide_by_zero (found %s)" % (nm, kws), {"feature": nm, "forwarded": kws})
-        inner = [x for x in h.node.body if isinstance(x, ast.FunctionDef)]
-        okf = len(inner) == 1 and kws.get("scale_func") == inner[0].name and any((dotted(k.func) or "") == stat and kwarg(k, "axis") is not None and norm(kwarg(k, "axis")) == "axis" for k in calls_in(inner[0]))
+        # the scale function: a nested def, a module-level function of this module, or a lambda -- resolved by name
+        sf = kwarg(c, "scale_func")
+        fnode = None
+        if isinstance(sf, ast.Lambda):
+            fnode = sf
+        elif isinstance(sf, ast.Name):
+            nested = [x for x in h.node.body if isinstance(x, ast.FunctionDef) and x.name == sf.id]
+            if nested:
+                fnode = nested[0]
+            else:
+                tgt = p.resolve_name(h.module, sf.id)
+                fnode = tgt.node if isinstance(tgt, FuncInfo) else None
+        okf = fnode is not None and any((dotted(k.func) or "") == stat and kwarg(k, "axis") is not None and str(norm(kwarg(k, "axis"))) in ("axis",) for k in ast.walk(fnode) if isinstance(k, ast.Call))
         r.check(okf, h, c, "%s must scale by %s along the requested axis" % (nm, stat))
 
 
